@@ -21,7 +21,8 @@ under `allow_to_string`; proved through "a step yields the least upper bound"), 
 Tree level: `ensure_primitive_embed` ties the lattice to the tracer for every name and path; `perm_lift` is the generic
 adjacent-swap argument; `C07_struct_map_mode` / `C07_struct_map_mode_pinned` and `C07_tuple_arity…` are the repaired /
 pinned witnesses; `absorb_comm_on_zoo` checks the swap law on a zoo of nested shapes by evaluation.
-`absorb_comm_partial` states the general tree law and says what is missing.
+`absorb_comm_leaf` is the swap law of `absorb` for two primitive leaf samples; the general tree-level laws (arbitrary
+nested samples) are in SaModel/Props/C07Tree.lean (`absorb_comm`, `absorb_idem`, `fromSamples_perm`, `fromSamples_repeat`).
 -/
 namespace SaModel.Props.C07
 open SaModel SaModel.Trace SaModel.Lemmas.C07
@@ -548,11 +549,10 @@ theorem absorb2_leaf (c : Code) (o : Options) (name path : String) (s : LeafSt) 
   | ok s' => simp only; rw [absorb_prim c o _ hy, ensure_primitive_embed] <;> try rfl
   | error e => rfl
 
-/-- `absorb_comm_partial`: the swap law of `absorb` itself, for any two primitive leaf samples at a position that holds
-an `Unknown` or `Primitive` node (any name, any path, any reachable state).
-Missing for the general `absorb_comm`: nested samples (struct fields up to field order, list items, map entries, tuple
-positions, union variants); those are covered by `absorb_comm_on_zoo` (evaluation) and by the correspondence suite. -/
-theorem absorb_comm_partial (c : Code) (o : Options) (hno : o.allow_to_string = false) (name path : String)
+/-- `absorb_comm_leaf`: the swap law of `absorb` itself, for any two primitive leaf samples at a position that holds
+an `Unknown` or `Primitive` node (any name, any path, any reachable state).  It is the leaf case of the general
+`absorb_comm` (SaModel/Props/C07Tree.lean), which covers all nested samples. -/
+theorem absorb_comm_leaf (c : Code) (o : Options) (hno : o.allow_to_string = false) (name path : String)
     {s : LeafSt} (hs : s ∈ leafStates o) {x y : SVal} {a b : DataType}
     (hx : leafTypeOf o x = some a) (hy : leafTypeOf o y = some b) :
     OutEq (absorb2 c o (LeafSt.embed name path s) x y) (absorb2 c o (LeafSt.embed name path s) y x) := by
